@@ -11,6 +11,7 @@ package main
 
 import (
 	"context"
+	"errors"
 	"fmt"
 	templruntime "github.com/a-h/templ/runtime"
 	"io"
@@ -514,6 +515,71 @@ func edits(full bool) (states, transitions int, cands []candidate) {
 		wg.Wait()
 		run.Cov["saves_during_handling"] = midSaves
 	}
+	// 1c. a fault in the middle of a history: version A is handled and the program built; the edit to B needs a
+	// recompilation but writing B's generated code fails (disk full, permissions), so the event fails and nothing is
+	// rebuilt; then C is saved and handled without a fault. The running program is still A's: whenever the handler says
+	// that C needs no recompilation, A's code reading C's text file is executed against a fresh build of C (confirm).
+	faultHistories := 0
+	seenCand := map[[2]params]bool{}
+	{
+		var mu sync.Mutex
+		var wg sync.WaitGroup
+		for g := 0; g < workers; g++ {
+			g := g
+			wg.Add(1)
+			go func() {
+				defer wg.Done()
+				d := wdir(g)
+				file := filepath.Join(d, "t.templ")
+				for i := g; i < len(all); i += workers {
+					a := all[i]
+					for _, b := range neighbours(a) {
+						if !dec[[2]params{a, b}] {
+							continue
+						}
+						for _, c := range neighbours(b) {
+							if !full && dec[[2]params{b, c}] {
+								continue // quick: only edits that need no recompilation after B (thorough: every edit)
+							}
+							failing := false
+							h := generatecmd.NewFSEventHandler(quiet, d, true, nil, false, true, func(string, []byte) error {
+								if failing {
+									return errors.New("write failed: no space left on device")
+								}
+								return nil
+							}, false)
+							s := &session{h, file}
+							step(s, a)
+							clockMu.Lock()
+							writeAt(file, b.src())
+							clockMu.Unlock()
+							failing = true
+							resB, errB := h.HandleEvent(context.Background(), fsnotify.Event{Name: file, Op: fsnotify.Write})
+							failing = false
+							transitionsA.Add(1)
+							if errB == nil && !resB.GoUpdated {
+								continue // nothing had to be written for B after all
+							}
+							compiled := a
+							if errB == nil {
+								compiled = b // the failure was swallowed and a rebuild requested: the program is B's
+							}
+							r := step(s, c)
+							mu.Lock()
+							faultHistories++
+							if !r && compiled != c && !seenCand[[2]params{compiled, c}] {
+								seenCand[[2]params{compiled, c}] = true
+								cands = append(cands, candidate{compiled, c, a.String() + " → " + b.String() + " (writing the generated code fails) → " + c.String()})
+							}
+							mu.Unlock()
+						}
+					}
+				}
+			}()
+		}
+		wg.Wait()
+		run.Cov["histories_with_a_failed_write"] = faultHistories
+	}
 	// 2. real sessions that between them contain every three consecutive versions (a, b, c) of the edit graph:
 	// each worker walks on from (b, c) to an unvisited (b, c, d) for as long as it can, so sessions are long edit
 	// histories. In every session the version the running program was last compiled from is tracked with the
@@ -521,7 +587,6 @@ func edits(full bool) (states, transitions int, cands []candidate) {
 	// that differs from the one taken after the previous version alone is counted: the closure search of step 3
 	// assumes there is none.
 	indepChecked, historyDependent := 0, 0
-	seenCand := map[[2]params]bool{}
 	{
 		type triple struct{ a, b, c params }
 		var mu sync.Mutex
